@@ -6,6 +6,7 @@ pub mod c09;
 pub mod c13;
 pub mod c14;
 pub mod c15;
+pub mod c16;
 pub mod c17;
 pub mod c19;
 pub mod c20;
@@ -24,6 +25,7 @@ pub fn spec(id: &str) -> Option<PropertySpec> {
         "C13" => c13::spec(),
         "C14" => c14::spec(),
         "C15" => c15::spec(),
+        "C16" => c16::spec(),
         "C17" => c17::spec(),
         "C19" => c19::spec(),
         "C20" => c20::spec(),
